@@ -210,7 +210,7 @@ class Sym:
                     a, c = c, a
                 elif op in COMMUTATIVE and repr(c) < repr(a):
                     a, c = c, a
-                r = ("cmp", op, a, c)
+                r = ("cmp", op, a, c, "signed") if _signed_cmp(rv) else ("cmp", op, a, c)
             else:
                 if op in COMMUTATIVE and repr(c) < repr(a):
                     a, c = c, a
@@ -288,6 +288,20 @@ def show(e):
     return repr(e)
 
 
+_SIGNED_TYS = ("i8", "i16", "i32", "i64", "i128", "isize")
+
+
+def _signed_cmp(rv):
+    """The operands of this comparison are signed integers (then `0 < x` is not `x != 0`)."""
+    for o in (rv.get("a"), rv.get("b")):
+        if not o:
+            continue
+        ty = o["p"].get("ty") if o.get("k") in ("copy", "move") else (o.get("c") or {}).get("ty")
+        if ty in _SIGNED_TYS:
+            return True
+    return False
+
+
 def canon_cmp(e, unsigned=True):
     """("cmp", op, a, b) -> (atom, polarity) with atom in canonical form: only `Lt` and `Eq` remain (Le/Ne become negated
     Lt/Eq; Gt/Ge were already swapped by Sym), Eq operands are sorted, and comparisons of an unsigned value with 0 / 1
@@ -295,6 +309,7 @@ def canon_cmp(e, unsigned=True):
     if e[0] != "cmp":
         return None, True
     op, a, b = e[1], e[2], e[3]
+    unsigned = unsigned and len(e) < 5      # ("cmp", op, a, b, "signed"): a comparison of signed integers
     pol = True
     if op == "Le":          # a <= b  ==  not (b < a)
         op, a, b, pol = "Lt", b, a, False
